@@ -3,6 +3,7 @@ import copy
 import os
 import shutil
 import tempfile
+import threading
 import uuid
 from collections.abc import Mapping
 
@@ -25,7 +26,7 @@ RULE = ('histories of 6-16 (thorough 8-25) operations from {save, load, list all
         'thorough 9000; distinct by history; non-trivial when a load followed a save and progress of the same key')
 ASSUMPTIONS = ['exception classes are not compared (KeyError vs FileNotFoundError are both "raises")', 'listings compared as sets',
                'bundles compared structurally (exceptions by type and args)']
-REQUIRED = ['ops/save', 'ops/load', 'ops/list', 'ops/listp', 'ops/del', 'ops/delp', 'ops/progress', 'ops/loadrun', 'loads_compared', 'loads_after_progress',
+REQUIRED = ['failed_saves', 'failed_overwrites', 'ops/save', 'ops/load', 'ops/list', 'ops/listp', 'ops/del', 'ops/delp', 'ops/progress', 'ops/loadrun', 'loads_compared', 'loads_after_progress',
             'absent_loads', 'overwrites', 'pidkind/int', 'pidkind/uuid', 'pidkind/str']
 BOUNDS = {'quick': '900 histories of 6-16 ops', 'thorough': '9000 histories of 8-25 ops'}
 
@@ -52,7 +53,7 @@ PROGRAM = {'steps': [S(['wait', 'w0', None], sync=True), S(['cont', [[1, 2]], {}
                      S(['value', 9], sync=True)]}
 PIDS = {'int': [1, 10, 12], 'uuid': [uuid.UUID(int=7), uuid.UUID(int=8), uuid.UUID(int=9)], 'str': ['job', 'job2', 'a']}
 TAGS = {'int': [None, 1, 2], 'uuid': [None, uuid.UUID(int=77)], 'str': [None, 't', 'tt', 'job']}
-OPS = ['save'] * 5 + ['load'] * 5 + ['progress'] * 4 + ['list', 'listp', 'del', 'delp', 'loadrun', 'loadrun']
+OPS = ['save'] * 5 + ['load'] * 5 + ['progress'] * 4 + ['list', 'listp', 'del', 'delp', 'loadrun', 'loadrun', 'badsave']
 
 
 def gen_cases(tier, seed):
@@ -147,6 +148,19 @@ def run_case(case):
                         obs['overwrites'] += 1
                     model[key] = snap
                     progressed_since_save[key] = False
+                elif op == 'badsave':
+                    # fault: a save that fails (the process holds something that can be neither copied nor pickled) stores nothing
+                    # and leaves whatever was stored under that key as it was
+                    proc.ctx.unsaveable = threading.Lock()
+                    try:
+                        r = both(lambda p: p.save_checkpoint(proc, tag))
+                    finally:
+                        del proc.ctx.unsaveable
+                    if r[0][0] != 'raise' or r[1][0] != 'raise':
+                        viol.append(V('failed-save-accepted', 'failed-save-accepted', '%s: saving an unsaveable process answered %s' % (ctx, r)))
+                    obs['failed_saves'] = obs.get('failed_saves', 0) + 1
+                    if key in model:
+                        obs['failed_overwrites'] = obs.get('failed_overwrites', 0) + 1
                 elif op == 'load':
                     r = both(lambda p: norm(dict(p.load_checkpoint(pid, tag))))
                     exp = model.get(key)
